@@ -617,8 +617,14 @@ func builtinRandomInt(i *Interpreter, args []Expr, env *Environment) (interface{
 	if minVal > maxVal {
 		return nil, fmt.Errorf("randomInt() requires min <= max, got min=%d, max=%d", minVal, maxVal)
 	}
+	// The width of the range must itself fit in an int64: rand.Int63n panics
+	// on a non-positive argument, which maxVal-minVal+1 becomes on overflow.
+	span := maxVal - minVal
+	if span < 0 || span == math.MaxInt64 {
+		return nil, fmt.Errorf("randomInt() range too large: min=%d, max=%d", minVal, maxVal)
+	}
 	// #nosec G404 -- non-cryptographic PRNG intentional for general-purpose scripting use
-	return minVal + rand.Int63n(maxVal-minVal+1), nil
+	return minVal + rand.Int63n(span+1), nil
 }
 
 func builtinGenerateId(_ *Interpreter, args []Expr, _ *Environment) (interface{}, error) {
